@@ -78,9 +78,10 @@ class Margins:
         self.m = {}
 
     def see(self, kind, ratio):
+        """record the margin of *compliant* comparisons; ratios > 1 are violations and reported as such"""
         if ratio != ratio:
             ratio = math.inf
-        if ratio > self.m.get(kind, 0.0):
+        if ratio <= 1.0 and ratio > self.m.get(kind, 0.0):
             self.m[kind] = ratio
         return ratio
 
